@@ -60,9 +60,8 @@ func (t *tailBuf) String() string {
 
 var errStalled = errors.New("stalled")
 
-// stall is how long a simulated run may go without a single step (function entry of the
-// instrumented library) before it is declared blocked: half the watchdog.
-func (p *Pool) stall() time.Duration { return p.timeout / 2 }
+// A simulated run that goes half its wall-clock limit without a single step (function entry
+// of the instrumented library) is declared blocked (runOn).
 
 func NewPool(bin string, args []string, env []string, n int, timeout time.Duration) *Pool {
 	return &Pool{bin: bin, args: args, env: env, n: n, timeout: timeout}
@@ -170,7 +169,8 @@ func nextFrame(s string) (string, string) {
 }
 
 // runOn executes one spec on w; ok=false means the worker must be replaced.
-func (p *Pool) runOn(w *workerProc, spec *Spec) (res *Result, ok bool) {
+func (p *Pool) runOn(w *workerProc, spec *Spec, limit time.Duration) (res *Result, ok bool) {
+	stall := limit / 2
 	atomic.AddInt64(&p.Runs, 1)
 	start := time.Now()
 	b, _ := json.Marshal(spec)
@@ -199,7 +199,7 @@ func (p *Pool) runOn(w *workerProc, spec *Spec) (res *Result, ok bool) {
 					same = 0
 				}
 				lastSteps = st
-				if time.Duration(same)*time.Second >= p.stall() {
+				if time.Duration(same)*time.Second >= stall {
 					ch <- rd{nil, errStalled}
 					return
 				}
@@ -234,7 +234,7 @@ func (p *Pool) runOn(w *workerProc, spec *Spec) (res *Result, ok bool) {
 			atomic.AddInt64(&p.Deaths, 1)
 			w.cmd.Process.Signal(os.Interrupt)
 			w.kill()
-			out := &Result{ID: spec.ID, Fatal: fmt.Sprintf("stalled: no simulated step for %v (blocked outside the simulator's seams)", p.stall()), FatalClass: "timeout"}
+			out := &Result{ID: spec.ID, Fatal: fmt.Sprintf("stalled: no simulated step for %v (blocked outside the simulator's seams)", stall), FatalClass: "timeout"}
 			out.Stderr = clip(w.stderr.String(), 4000)
 			out.WallMs = float64(time.Since(start).Microseconds()) / 1000
 			return out, false
@@ -247,7 +247,7 @@ func (p *Pool) runOn(w *workerProc, spec *Spec) (res *Result, ok bool) {
 		out.Stderr = clip(se, 12000)
 		out.WallMs = float64(time.Since(start).Microseconds()) / 1000
 		return out, false
-	case <-time.After(p.timeout):
+	case <-time.After(limit):
 		atomic.AddInt64(&p.Deaths, 1)
 		w.cmd.Process.Signal(os.Interrupt)
 		w.kill()
@@ -279,6 +279,7 @@ func (p *Pool) Run(specs []*Spec, progress func(done int)) []*Result {
 	results := make([]*Result, len(specs))
 	var next int64 = -1
 	var done int64
+	var timeouts int64
 	var wg sync.WaitGroup
 	n := p.n
 	if n > len(specs) {
@@ -305,7 +306,18 @@ func (p *Pool) Run(specs []*Spec, progress func(done int)) []*Result {
 						continue
 					}
 				}
-				res, ok := p.runOn(w, specs[j])
+				// once many runs of this batch have hit the wall-clock limit (which never happens
+				// on a tree where the property holds), the batch already carries its verdict: the
+				// remaining runs get a fifth of the limit, so that a change that blocks every run
+				// costs minutes, not hours
+				limit := p.timeout
+				if atomic.LoadInt64(&timeouts) >= 8 {
+					limit = p.timeout / 5
+				}
+				res, ok := p.runOn(w, specs[j], limit)
+				if res != nil && res.FatalClass == "timeout" {
+					atomic.AddInt64(&timeouts, 1)
+				}
 				w.runs++
 				results[j] = res
 				if !ok {
@@ -326,15 +338,13 @@ func (p *Pool) Run(specs []*Spec, progress func(done int)) []*Result {
 // RunFresh executes one spec in a brand-new worker process. It is the confirmation
 // path of watchdog verdicts, so it gets three times the pool's per-run wall-clock limit.
 func (p *Pool) RunFresh(spec *Spec) *Result {
-	q := *p
-	q.timeout = 3 * p.timeout
-	p2 := &q
+	p2 := p
 	w, err := p2.start()
 	if err != nil {
 		return &Result{ID: spec.ID, Fatal: "cannot start worker: " + err.Error(), FatalClass: "infra"}
 	}
 	defer w.kill()
-	res, _ := p2.runOn(w, spec)
+	res, _ := p2.runOn(w, spec, 3*p.timeout)
 	atomic.AddInt64(&p.Runs, 1)
 	return res
 }
